@@ -263,7 +263,7 @@ func c12EqualTOML(t any, v any) bool {
 
 // ---- pools -----------------------------------------------------------------------------
 
-var c12Keys2 = []string{"a", "b", "c", "foo", "x1", "a", "b", "a b", "a.b", "a.b.c", "a-b", "0", "1", "00", "1e3", "-1", "true", "false", "null", "~",
+var c12Keys2 = []string{"a", "b", "c", "foo", "x1", "ab", "abc", "x", "item", "items", "server", "servers", "a b c", "a", "b", "a b", "a.b", "a.b.c", "a-b", "0", "1", "00", "1e3", "-1", "true", "false", "null", "~",
 	"", "_", "_h", "#d", "é", "日本", "😀", "\"", "a\"b", "\"\"x", "'", "a'b", "\\", "a\\b", "a\nb", "\t", " ", " a", "a ", "a=b", "[x]", "{x}", "a:b", "a: b", "a #b",
 	"\"a.b\"", "#", "yes", "no", "on", "off", "y", "n", "Null", "NULL", "TRUE", "0x1", "0o7", "1_0", ".5", "+1", "1.0", "inf", ".inf", ".nan", "nan",
 	"*a", "&a", "!a", "|", ">", "%", "@", "`", "-", "- a", "? a", "a,b", "<<", "=", "!!str", "1979-05-27", "12:30:00", "package", "import", "let", "if", "for", "in"}
@@ -349,6 +349,9 @@ func c12GenData(r *Rng, depth int, o *c12GenOpts, force byte) any {
 	}
 	switch k {
 	case 'm':
+		if depth > 0 && r.Chance(1, 6) {
+			return c12GenFamilyData(r, depth, o)
+		}
 		n := r.Intn(5)
 		m := &c12Map{}
 		seen := map[string]bool{}
@@ -398,6 +401,32 @@ func c12GenData(r *Rng, depth int, o *c12GenOpts, force byte) any {
 		}
 		return c12PickString(r, c12Strings2, o.enc, o.input)
 	}
+}
+
+// c12GenFamilyData: sibling keys in a string-prefix relation (see c12KeyFamilies): the first
+// holds a list of structs, the later ones structs or lists of structs
+func c12GenFamilyData(r *Rng, depth int, o *c12GenOpts) any {
+	fam := Pick(r, c12KeyFamilies)
+	m := &c12Map{}
+	recs := func() any {
+		l := []any{}
+		for i, n := 0, 1+r.Intn(2); i < n; i++ {
+			l = append(l, c12GenData(r, depth-2, o, 'm'))
+		}
+		return l
+	}
+	for i, k := range fam {
+		m.Keys = append(m.Keys, k)
+		switch {
+		case i == 0 && r.Chance(5, 6), r.Chance(1, 2):
+			m.Vals = append(m.Vals, recs())
+		case r.Chance(4, 5):
+			m.Vals = append(m.Vals, c12GenData(r, depth-1, o, 'm'))
+		default:
+			m.Vals = append(m.Vals, c12GenData(r, 0, o, 'a'))
+		}
+	}
+	return m
 }
 
 // c12CloneData: a deep copy (records of the same shape in a list)
